@@ -50,7 +50,8 @@ static gk::RefMesh lPrism() {   // non-convex L-shaped prism, height 1
 static std::vector<std::string> meshNames(bool thorough) {
     std::vector<std::string> n = {"tetrahedron", "octahedron", "box", "icosphere0", "icosphere1", "icosphere2", "octahedron-rot", "box-rot",
                                   "icosphere1-sliver", "box-plate", "torus12x8", "Lprism", "icosphere1-dented", "box-viaPolygonal-quads",
-                                  "icosphere1-viaPolygonal-flipped", "icosphere1-smooth", "Lprism-rot"};
+                                  "icosphere1-viaPolygonal-flipped", "icosphere1-smooth", "Lprism-rot",
+                                  "ellipsoid-1x3x0.8-viaPolygonal-flipped", "ellipsoid-1x0.8x3-viaPolygonal-flipped", "ellipsoid-3x1x0.8-viaPolygonal-flipped", "ellipsoid-1x3x0.8-viaPolygonal"};
     if (thorough) { n.push_back("icosphere3"); n.push_back("torus24x12-rot"); n.push_back("icosphere2-sliver"); }
     return n;
 }
@@ -78,6 +79,10 @@ static MeshCase buildMesh(const std::string& name, long seed) {
     else if (name == "torus24x12-rot") { C.ref = rot(torusMesh(24, 12, 1.0 * s, 0.4 * s), 0); C.convex = false; C.genus = 1; }
     else if (name == "Lprism") { C.ref = gk::transformed(lPrism(), Mat33(s), Vec3(0), ""); C.convex = false; }
     else if (name == "Lprism-rot") { C.ref = rot(gk::transformed(lPrism(), Mat33(s), Vec3(0), ""), 2); C.convex = false; }
+    else if (name.rfind("ellipsoid-", 0) == 0) {   // elongated solids given inward- (or outward-) facing to the PolygonalMesh constructor: the documented auto-orientation must not depend on the aspect ratio
+        Mat33 A(1); if (name.find("1x3x0.8") != std::string::npos) { A(0, 0) = 1; A(1, 1) = 3; A(2, 2) = 0.8; } else if (name.find("1x0.8x3") != std::string::npos) { A(0, 0) = 1; A(1, 1) = 0.8; A(2, 2) = 3; } else { A(0, 0) = 3; A(1, 1) = 1; A(2, 2) = 0.8; }
+        C.ref = gk::transformed(gk::icosphere(1, 0.6 * s), A, Vec3(0), "");
+    } else if (name == "longtet-viaPolygonal-flipped") { Mat33 A(1); A(0, 0) = 0.5; A(1, 1) = 4; A(2, 2) = 0.7; C.ref = gk::transformed(gk::tetrahedron(0.9 * s), A, Vec3(0), ""); }
     else if (name == "icosphere1-dented") { C.ref = gk::icosphere(1, 1.2 * s); C.ref.v[0] *= 0.35; C.ref.v[7] *= 0.5; C.convex = false; }
     C.ref.name = name;
     C.viaPolygonal = name.find("viaPolygonal") != std::string::npos;
@@ -491,6 +496,34 @@ int main(int argc, char** argv) {
     const std::vector<std::vector<int>> subsets = allSubsetsUpTo4();
     const int nVariants = thorough ? 4 : 2;
     const int64_t nSub = (int64_t)subsets.size();
+    // ---- PolygonalMesh-constructed meshes: the documented re-orientation must not depend on which face comes first, on the winding of
+    //      the input or on the aspect ratio of the solid.  Every face of a 20-face icosphere-based ellipsoid is taken as first face,
+    //      x 4 aspect ratios x {outward, inward} input winding.
+    {
+        static const double ASP[4][3] = {{1, 1, 1}, {1, 3, 0.8}, {1, 0.8, 3}, {3, 1, 0.8}};
+        const gk::RefMesh base = gk::icosphere(0, 0.6);
+        const int NF0 = (int)base.f.size();
+        run.parallel("polygonal-orientation", (int64_t)NF0 * 4 * 2, [&](int64_t idx) {
+            const int first = (int)(idx % NF0), asp = (int)(idx / NF0 % 4), inward = (int)(idx / NF0 / 4);
+            const std::string nm = "icosphere0 aspect=" + std::to_string(asp) + " first-face=" + std::to_string(first) + (inward ? " inward-wound input" : " outward-wound input");
+            auto rp = [&] { return run.replayHeader() + "mesh=" + nm + "\n"; };
+            PolygonalMesh pm;
+            for (auto& v : base.v) pm.addVertex(Vec3(v[0] * ASP[asp][0], v[1] * ASP[asp][1], v[2] * ASP[asp][2]));
+            for (int k = 0; k < NF0; ++k) { const auto& f = base.f[(first + k) % NF0]; Array_<int> fv; fv.push_back(f[0]); fv.push_back(inward ? f[2] : f[1]); fv.push_back(inward ? f[1] : f[2]); pm.addFace(fv); }
+            ContactGeometry::TriangleMesh M(pm);
+            run.evaluation(verif::hashStr(nm), true);
+            double vol = 0; int inwardNormals = 0;
+            for (int f = 0; f < M.getNumFaces(); ++f) {
+                const Vec3 a = M.getVertexPosition(M.getFaceVertex(f, 0)), b = M.getVertexPosition(M.getFaceVertex(f, 1)), c = M.getVertexPosition(M.getFaceVertex(f, 2));
+                vol += dot(a, b % c) / 6;
+                if (dot(Vec3(M.getFaceNormal(f)), (a + b + c) / 3) <= 0) ++inwardNormals;     // the solid is star-shaped about the origin
+            }
+            run.expect(vol > 0 && inwardNormals == 0, "orientation-outward", [&] { return nm + ": signed volume " + sd(vol) + ", " + std::to_string(inwardNormals) + " of " + std::to_string(M.getNumFaces()) + " face normals point inward"; }, rp);
+            bool in0 = false, in1 = true; UnitVec3 n0, n1;
+            M.findNearestPoint(Vec3(0.01, -0.02, 0.015), in0, n0); M.findNearestPoint(Vec3(5, 4, 6), in1, n1);
+            run.expect(in0 && !in1, "inside-flag/convex/nearest-on-face", [&] { return nm + ": inside flag of an interior point " + std::to_string(in0) + ", of a far point " + std::to_string(in1); }, rp);
+        });
+    }
     run.parallel("clouds", nSub * nVariants, [&](int64_t idx) {
         const int variant = thorough ? (int)(idx / nSub) : (int)(idx / nSub == 0 ? 0 : 1 + ((seed % 3) + 3) % 3);
         const std::vector<int>& sub = subsets[idx % nSub];
